@@ -38,7 +38,15 @@ Record endpoint := {
 
 Record params := { p_version : Z; p_vocab : Z }.
 
-Inductive outcome := Banana (p : params) | Failed (why : string).
+(* what one end of one connection attempt comes to:
+     Banana p          -- it switched to the RPC protocol (created its Broker) with p and the connection stands;
+     Failed why        -- it abandoned the attempt BEFORE switching: negotiationFailed(why), no Broker was created;
+     SwitchedThenLost p -- it switched to the RPC protocol with p (Broker created, attached to the Tub) and THEN the peer
+                          hung up: this end never sees a negotiation error, its Broker sees connectionLost and whoever waits
+                          on it gets DeadReferenceError / ConnectionLost.  Only the decider can end here: sendDecision does
+                          sendBlock(decision); send_phase = BANANA; switchToBanana(params) without waiting for the other end
+                          (the version-1 protocol has no acknowledgement of the decision). *)
+Inductive outcome := Banana (p : params) | Failed (why : string) | SwitchedThenLost (p : params).
 
 Record decision := { d_version : Z; d_vocab : Z; d_hash : Z }.
 
@@ -72,25 +80,37 @@ Definition slave_accept (me : endpoint) (d : decision) : res params :=
 Definition out_of {T} (r : res T) (f : T -> params) : outcome :=
   match r with Ok v => Banana (f v) | Exc t => Failed t end.
 
-(* one connection between a and b.  Both evaluate the other's hello; exactly the
-   master decides and sends the decision (or an error block, after which it hangs
-   up and the other side fails with RemoteNegotiationError / connection lost). *)
-Definition negotiate (a b : endpoint) : outcome * outcome :=
-  let run (m s : endpoint) : outcome * outcome :=   (* m is master *)
+Definition params_of (d : decision) : params := {| p_version := d_version d; p_vocab := d_vocab d |}.
+
+(* one connection between the decider m and the other end s.  Both hellos are sent when the ENCRYPTED phase is entered and each
+   end handles the peer's hello when it arrives, independently of what the peer makes of its own (the link is FIFO: a hello always
+   precedes the error or decision block of the same sender):
+     s: evaluateHello; a refusal ends s with that error (error block sent, connection dropped); otherwise s waits for the decision;
+     m: evaluateHello + evaluateNegotiationVersion1; a refusal ends m with that error, and s -- if it still waits -- reads m's error
+        block as RemoteNegotiationError; otherwise m SENDS THE DECISION AND SWITCHES AT ONCE (sendDecision).  If s then refuses
+        the decision (or had already refused the hello) s abandons with its error, and m, which has a Broker, only loses the
+        connection. *)
+Definition run (m s : endpoint) : outcome * outcome :=
+  match master_decide m s with
+  | Exc tm => (Failed tm, match eval_hello s m with Exc ts => Failed ts | Ok _ => Failed "RemoteNegotiationError" end)
+  | Ok d =>
     match eval_hello s m with
-    | Exc t => (Failed "peer-hung-up", Failed t)     (* the slave itself refuses the hello *)
+    | Exc ts => (SwitchedThenLost (params_of d), Failed ts)
     | Ok _ =>
-      match master_decide m s with
-      | Exc t => (Failed t, Failed "RemoteNegotiationError")
-      | Ok d =>
-        match slave_accept s d with
-        | Exc t => (Failed "peer-hung-up", Failed t)
-        | Ok p => (Banana {| p_version := d_version d; p_vocab := d_vocab d |}, Banana p)
-        end
+      match slave_accept s d with
+      | Exc t => (SwitchedThenLost (params_of d), Failed t)
+      | Ok p => (Banana (params_of d), Banana p)
       end
-    end in
+    end
+  end.
+
+Definition swap {A B} (x : A * B) : B * A := (snd x, fst x).
+
+(* one connection between a and b: exactly the end with the greater id runs as decider; with equal ids nobody decides, both wait
+   and the attempt ends by the negotiation timeout *)
+Definition negotiate (a b : endpoint) : outcome * outcome :=
   if i_am_master (ep_id a) (ep_id b) then run a b
-  else if i_am_master (ep_id b) (ep_id a) then let '(ob, oa) := run b a in (oa, ob)
+  else if i_am_master (ep_id b) (ep_id a) then swap (run b a)
   else (Failed "no-master", Failed "no-master").
 
 Definition masters (a b : endpoint) : nat :=
